@@ -271,8 +271,15 @@ func c18EvCheck(ctx *vfCtx, c c18EvCase) {
 
 	if !c.NoRoom {
 		if room := c18GetRoom(c.Version, c.JoinRule, c.Bob); room != nil {
-			state, err1 := c18ParseAll(c.Version, room.State)
-			probes, err2 := c18ParseAll(c.Version, room.Probes)
+			var state, probes []PDU
+			var err1, err2 error
+			// (the valid room goes through the library's parser too: a panic there is a finding, not a harness error)
+			if s.call("room/NewEventFromTrustedJSON", func() {
+				state, err1 = c18ParseAll(c.Version, room.State)
+				probes, err2 = c18ParseAll(c.Version, room.Probes)
+			}) {
+				err1 = fmt.Errorf("panic while parsing the valid room")
+			}
 			if err1 != nil || err2 != nil {
 				ctx.Unjudged(fmt.Sprintf("generator: room does not parse: %v %v", err1, err2))
 			} else {
